@@ -101,8 +101,8 @@ pub fn generate(arm: &str, seed: u64, o: ArmOpts) -> Scenario {
     let table = Table::generate(&mut trng, GenOpts { depth_free: o.depth_free, long_arcs: o.long_arcs, max_n: if o.large { 16 } else { 8 }, max_s: if o.large { 14 } else { 6 }, reconverge: o.reconverge, dom_friendly: o.force_dom == Some(true) || rng.chance(1, 3), few_dead_arcs: rng.chance(1, 3), knapsack_quarters: o.knapsack_quarters, top_merge_quarters: 1, abyss_one_in: if o.long_arcs || o.force_dom == Some(true) { 0 } else { 25 } });
     let dd = if o.force_pooled { Dd::Pooled } else { *rng.pick(&[Dd::Lel, Dd::Fc, Dd::Pooled]) };
     let cache = o.force_cache.unwrap_or_else(|| rng.chance(1, 2));
-    let depth_free = !table.depth_in_state;
-    let nodup = if depth_free && !o.allow_nodup_depth_free { false } else { rng.chance(1, 2) || o.force_nodup };
+    // (the duplicate-free fringe is keyed on (state, depth) since the repair of D4: it is drawn for depth-free and long-arc models too)
+    let nodup = rng.chance(1, 2) || o.force_nodup;
     let wmax = if o.large { *rng.pick(&[1, 2, 3, 4, 5, 6, 8, 10]) } else { *rng.pick(&[1, 1, 1, 2, 2, 2, 3, 3, 4]) };
     let width = if o.perturb && rng.chance(1, 3) { WidthPlan::Jitter { seed: rng.next(), max: wmax.max(2) } } else { WidthPlan::Fixed(wmax) };
     let want_dom = o.force_dom.unwrap_or_else(|| rng.chance(1, 3));
